@@ -18,6 +18,12 @@ import SF.GenEq.SuperSmoother
 import SF.GenEq.RoofingFilter
 import SF.GenEq.WelfordRolling
 import SF.Props.C13
+import SF.Props.C14
+import SF.GenEq.Add
+import SF.GenEq.Subtract
+import SF.GenEq.Multiply
+import SF.GenEq.Divide
+import SF.GenEq.Tanh
 /-
   End-to-end: the property theorems of SF/Props, which are about the hand-written model, transferred along the translator
   tie to the definitions GENERATED from the Rust text on this run.
@@ -67,6 +73,35 @@ theorem Sim.realises {G W : View α} (h : Sim G W) (spec : List α → Option α
     rw [hg] at hr
     have : h.abs s = m := by simpa [Except.map] using hr
     exact ⟨s, rfl, by rw [h.last s (hc s hg), this, hl]⟩
+
+section anyScalar
+/-! C14 for the translated text, at ANY scalar type with the crate's operations -- in particular at `Float`, i.e. bit-exactly:
+the generated `last()` of a combinator over children in states `s.a`, `s.b` reports the operation applied to the children's
+current outputs, whatever happened before. -/
+variable [Add α] [Sub α] [Mul α] [Div α] [Neg α] [NatCast α] [LT α] [DecidableLT α] [LE α] [DecidableLE α] [BEq α]
+  [FloatLike α] [Transc α]
+
+theorem add_rust (A B : View α) (s : SF.Gen.Add.State α A.σ B.σ) (x y : α) (ha : A.last s.a = .ok (some x))
+    (hb : B.last s.b = .ok (some y)) (hx : FloatLike.isFinite x = true) (hy : FloatLike.isFinite y = true) :
+    SF.Gen.Add.last A B s = .ok (some (x + y)) := by
+  rw [Add.last_eq]; exact C14.add_last A B s.a s.b x y ha hb hx hy
+theorem sub_rust (A B : View α) (s : SF.Gen.Subtract.State α A.σ B.σ) (x y : α) (ha : A.last s.a = .ok (some x))
+    (hb : B.last s.b = .ok (some y)) (hx : FloatLike.isFinite x = true) (hy : FloatLike.isFinite y = true) :
+    SF.Gen.Subtract.last A B s = .ok (some (x - y)) := by
+  rw [Subtract.last_eq]; exact C14.sub_last A B s.a s.b x y ha hb hx hy
+theorem mul_rust (A B : View α) (s : SF.Gen.Multiply.State α A.σ B.σ) (x y : α) (ha : A.last s.a = .ok (some x))
+    (hb : B.last s.b = .ok (some y)) (hx : FloatLike.isFinite x = true) (hy : FloatLike.isFinite y = true) :
+    SF.Gen.Multiply.last A B s = .ok (some (x * y)) := by
+  rw [Multiply.last_eq]; exact C14.mul_last A B s.a s.b x y ha hb hx hy
+theorem div_rust (A B : View α) (s : SF.Gen.Divide.State α A.σ B.σ) (x y : α) (ha : A.last s.a = .ok (some x))
+    (hb : B.last s.b = .ok (some y)) (hx : FloatLike.isFinite x = true) (hy : FloatLike.isFinite y = true)
+    (hy0 : (y == (nat 0 : α)) = false) :
+    SF.Gen.Divide.last A B s = .ok (some (x / y)) := by
+  rw [Divide.last_eq]; exact C14.div_last A B s.a s.b x y ha hb hx hy hy0
+theorem tanh_rust (A : View α) (s : SF.Gen.Tanh.State α A.σ) (v : α) (h : A.last s.view = .ok (some v))
+    (hv : FloatLike.isFinite v = true) : SF.Gen.Tanh.last A s = .ok (some (Transc.tanh v)) := by
+  rw [Tanh.last_eq]; exact C14.tanh_last A s.view v h hv
+end anyScalar
 
 section field
 variable [Field α] [LinearOrder α] [IsStrictOrderedRing α] [FloatLike α] [ExactScalar α] [Transc α]
